@@ -130,6 +130,7 @@ type vpOpts struct {
 	plainData bool  // log entries: type fixed to EntryNormal
 	inflPeers int   // number of peers (2, 3) whose in-flight window is non-trivial; 0 = all
 	symPeers  int   // number of peers with fully symbolic Progress; 0 = all. The others are caught-up replicas.
+	concBase  bool  // the storage's compaction index is a concrete choice (0 or 7) instead of a symbolic value
 	noSizeLimit bool // maxMsgSize and maxApplyingEntsSize are "no limit" (size-limit behaviour is decided in dedicated cells)
 }
 
@@ -155,8 +156,20 @@ func vpConfState(s vpShape) *pb.ConfState {
 }
 
 // vpStorage builds a MemoryStorage: dummy entry (s, ts), n <= maxN entries.
+// vpConcreteBase makes vpStorage pick the compaction index from {0, 7}.
+var vpConcreteBase bool
+
 func vpStorage(maxN int, k *vpConds, plain bool) *MemoryStorage {
 	s, ts := vpU64(), vpU64()
+	if vpConcreteBase {
+		if vpChoose(2) == 0 {
+			vpAssume(vpAnd(s == 0, ts == 0))
+			s, ts = 0, 0
+		} else {
+			vpAssume(s == 7)
+			s = 7
+		}
+	}
 	k.add(s <= vpMaxIdx)
 	k.add(ts <= vpMaxIdx)
 	k.add((s == 0) == (ts == 0))
@@ -193,6 +206,7 @@ func vpStorageTermAt(ms *MemoryStorage, i uint64) uint64 {
 }
 
 func vpBuildLog(o vpOpts, k *vpConds) (*raftLog, *MemoryStorage) {
+	vpConcreteBase = o.concBase
 	ms := vpStorage(o.ls, k, o.plainData)
 	n := uint64(len(ms.ents) - 1)
 	s := ms.ents[0].GetIndex()
